@@ -6,7 +6,7 @@ import os
 from harness import common, gen_text, textimpl, gpgutil
 from harness.common import cps, uncps
 
-BRIDGE = ('Gemato.Bridge.Text', 'Gemato.Bridge.SrcText')
+BRIDGE = ('Gemato.Bridge.Text', 'Gemato.Bridge.SrcText', 'Gemato.Bridge.SrcPgp')
 PROPS = ['Gemato.Props.C04', 'Gemato.Props.C04b']
 
 
@@ -168,11 +168,57 @@ def gpg_case(ctx, drv, env, kind, text):
     return out
 
 
+def reuse_case(ctx):
+    """ONE ManifestFile object loaded several times (the docstring of load() allows it, find_top_level does it): after every
+    load - also one that raised - the object says "signed" only if THIS load handed a text to the verifier and it was accepted"""
+    import io
+    import gemato.manifest as gm
+    from gemato.exceptions import OpenPGPVerificationFailure
+    rng = ctx.rng
+
+    class Env:
+        def __init__(self):
+            self.calls = 0
+
+        def verify_file(self, f):
+            self.calls += 1
+            if 'evil' in f.read():
+                raise OpenPGPVerificationFailure('bad signature')
+            return 'SIGDATA'
+    good = ('-----BEGIN PGP SIGNED MESSAGE-----\nHash: SHA256\n\nDATA a 0\n-----BEGIN PGP SIGNATURE-----\n\nabcd\n'
+            '-----END PGP SIGNATURE-----\n')
+    pool = [good, good.replace('DATA a 0', 'DATA evil 0'), 'DATA plain 0\n', good + 'DATA after 0\n',
+            good[:good.index('-----END')], 'junk line\n', '', good.replace('DATA a 0', '- DATA b 1 MD5 aa')]
+    seq = [rng.choice(pool) for _ in range(rng.randint(2, 4))]
+    if rng.random() < 0.5:
+        seq[0] = good
+    m = gm.ManifestFile()
+    env = Env()
+    scen = {'op': 'reuse', 'texts': [cps(t) for t in seq]}
+    ctx.count('stream:object-reuse')
+    ctx.case(json.dumps(scen), True, {'n': len(seq)})
+    for i, t in enumerate(seq):
+        before = env.calls
+        raised = None
+        try:
+            m.load(io.StringIO(t), verify_openpgp=True, openpgp_env=env)
+        except Exception as e:
+            raised = type(e).__name__
+        verified_now = env.calls > before and raised is None
+        if bool(m.openpgp_signed) != verified_now:
+            ctx.fail('signed-flag-does-not-belong-to-this-load', dict(scen, index=i),
+                     f'load #{i} ({"raised " + raised if raised else "returned"}): openpgp_signed={m.openpgp_signed}, '
+                     f'verified in this load: {verified_now}')
+            return
+
+
 def run(ctx):
     ctx.rule = ('(a) all line sequences up to a length bound over the ten line classes of the property, with and without final '
                 'newline, through StringIO and real files: impl vs model (model = exact shape by C04_signed_iff); '
                 '(b) Manifests genuinely signed with gpg, mutated, loaded with real verification; when accepted the entries are '
-                'compared with the cleartext `gpg --decrypt` authenticates. non-trivial = every distinct text')
+                'compared with the cleartext `gpg --decrypt` authenticates; (c) one ManifestFile object loaded 2-4 times (accepted, '
+                'tampered, unsigned, truncated texts in any order): the signed flag belongs to the last load alone. '
+                'non-trivial = every distinct text')
     ctx.assumptions = ['gpg itself (what it authenticates, its framing) is exercised, not modelled',
                        'RFC 4880 canonicalisation: trailing whitespace irrelevance is proved for the parser (C04_trailing_ws_irrelevant)']
     ctx.tmp = common.scratch_dir()
@@ -204,6 +250,8 @@ def run(ctx):
             lines = [gen_text.LINE_CLASSES[c] + ctx.rng.choice(['', '', '', ' ', '\t', '\r']) for c in combo]
             text = '\n'.join(lines) + ctx.rng.choice(['\n', ''])
             compare(ctx, drv, text, ctx.rng.choice(['stringio', 'file']), 'classes-long', {'classes': ''.join(combo)})
+        for i in range(300 if ctx.tier == 'quick' else 5000):
+            reuse_case(ctx)
         # real gpg
         env = gpgutil.private_env()
         if os.path.isdir(corpus_dir):
